@@ -7,11 +7,12 @@
    simple graphs.  A graph with isolated vertices or with ten or more vertices is just a wf graph:
    the theorems quantify over all of them.
 
-   Deviations of the unchanged code kept visible here (faithful model):
-     D6  kthlist text without size line      -> StopIteration   C14_kth_no_size_line_refuted
-     D7  blank line in a DIMACS graph file   -> IndexError      C14_dimacs_blank_line_refuted
-     D8  bipartite kthlist, left vertex twice-> edges dropped   C14_kthb_sound_refuted
-     D9  dot labels sorted as strings        -> renumbering     C14_dot_labels_refuted *)
+   The model follows the CURRENT code of /repo.  The code as found (before the repairs bb735e1, 11330db,
+   1f39172, 733c3b6) is modelled by the *_as_found functions; what failed there stays visible:
+     D6  kthlist text without size line      -> StopIteration   C14_kth_no_size_line_as_found_refuted
+     D7  blank line in a DIMACS graph file   -> IndexError      C14_dimacs_blank_line_as_found_refuted
+     D8  bipartite kthlist, left vertex twice-> edges dropped   C14_kthb_sound_as_found_refuted
+     D9  dot labels sorted as strings        -> renumbering     C14_dot_labels_as_found_refuted *)
 From Coq Require Import ZArith List Bool Ascii.
 From Cnfgen Require Import GText GraphIO GTextFacts GraphIOFacts GraphIOMatrix GraphIODimacs GraphIOKth GraphIOSound GraphIOLabels GraphIOBipNx.
 Import ListNotations.
@@ -73,22 +74,45 @@ Theorem C14_kth_sound : forall k text G, k <> GioBipartite -> gio_read_kth k tex
 Proof. exact kth_sound. Qed.
 Print Assumptions C14_kth_sound.
 
-(* kthlist, bipartite: sizes add up to the declared size; the edge characterisation holds when every
-   left vertex is listed once *)
-Theorem C14_kthb_sound_partial : forall text G, gio_read_kthb text = GOk G ->
+(* kthlist, bipartite: rows "u : v1 ... vk 0" with strictly increasing left vertex u (a repeated or
+   out-of-order left vertex is therefore never accepted); the two sides add up to the declared size and
+   the edges are exactly the listed pairs (u, v - L).  No extra hypothesis. *)
+Theorem C14_kthb_sound : forall text G, gio_read_kthb text = GOk G ->
+  exists skips sl rest n,
+    gt_lines text = skips ++ sl :: rest /\ Forall kth_skip skips /\ gio_kth_line (-1) sl = GOk (KISize n) /\
+    io_kind G = GioBipartite /\ io_n G + io_r G = n /\ gio_wf G /\
+    rows_inc 0 (kth_rows n rest) /\
+    (forall a b, In (a, b) (io_edges G) <->
+                 exists r v, In r (kth_rows n rest) /\ In v (snd r) /\ a = fst r /\ b = v - io_n G).
+Proof. exact kthb_sound. Qed.
+Print Assumptions C14_kthb_sound.
+
+(* the same for ANY way of cutting the text into "skipped lines, size line, rest": every listed neighbour is an edge *)
+Theorem C14_kthb_every_listed_edge : kthb_sound_statement_for gio_read_kthb.
+Proof. exact kthb_sound_statement_holds. Qed.
+Print Assumptions C14_kthb_every_listed_edge.
+
+(* the files of D8 are refused now *)
+Theorem C14_kthb_repeated_left_vertex_rejected :
+  gio_read_kthb kthb_dup_text = GRaise EValueError /\ gio_read_kthb kthb_unordered_text = GRaise EValueError.
+Proof. exact kthb_dup_rejected. Qed.
+Print Assumptions C14_kthb_repeated_left_vertex_rejected.
+
+(* the reader as found (before 1f39172): the edge characterisation needs every left vertex to be listed once ... *)
+Theorem C14_kthb_sound_as_found_partial : forall text G, gio_read_kthb_as_found text = GOk G ->
   exists skips sl rest n,
     gt_lines text = skips ++ sl :: rest /\ Forall kth_skip skips /\ gio_kth_line (-1) sl = GOk (KISize n) /\
     io_kind G = GioBipartite /\ io_n G + io_r G = n /\ gio_wf G /\
     (NoDup (map fst (kth_rows n rest)) ->
      forall a b, In (a, b) (io_edges G) <->
                  exists r v, In r (kth_rows n rest) /\ In v (snd r) /\ a = fst r /\ b = v - io_n G).
-Proof. exact kthb_sound_partial. Qed.
-Print Assumptions C14_kthb_sound_partial.
+Proof. exact kthb_sound_as_found_partial. Qed.
+Print Assumptions C14_kthb_sound_as_found_partial.
 
-(* ... and fails without that hypothesis (D8): "3 / 1 : 2 0 / 1 : 3 0" is accepted with the single edge (1,2) *)
-Theorem C14_kthb_sound_refuted : ~ kthb_sound_statement.
-Proof. exact kthb_sound_refuted. Qed.
-Print Assumptions C14_kthb_sound_refuted.
+(* ... and fails without that hypothesis (D8): "3 / 1 : 2 0 / 1 : 3 0" was accepted with the single edge (1,2) *)
+Theorem C14_kthb_sound_as_found_refuted : ~ kthb_sound_statement_for gio_read_kthb_as_found.
+Proof. exact kthb_sound_as_found_refuted. Qed.
+Print Assumptions C14_kthb_sound_as_found_refuted.
 
 (* dimacs: exactly one line "p edge n m", m lines "e u v" after it, all vertices in range; the graph has
    n vertices and exactly those edges *)
@@ -114,31 +138,49 @@ Theorem C14_matrix_rejects_with_value_error : forall text e, gio_read_matrix tex
 Proof. exact matrix_exn. Qed.
 Print Assumptions C14_matrix_rejects_with_value_error.
 
-(* kthlist: ValueError, except StopIteration exactly when every line is a comment or blank (partial) *)
-Theorem C14_kth_rejects_partial : forall k text e, gio_read_kth k text = GRaise e ->
-  e = EValueError \/ (e = EStopIteration /\ Forall kth_skip (gt_lines text)).
+(* kthlist, the three graph types: ValueError only, for every text *)
+Theorem C14_kth_rejects_with_value_error : forall k text e, gio_read_kth k text = GRaise e -> e = EValueError.
 Proof. exact kth_exn. Qed.
-Print Assumptions C14_kth_rejects_partial.
-Theorem C14_kthb_rejects_partial : forall text e, gio_read_kthb text = GRaise e ->
-  e = EValueError \/ (e = EStopIteration /\ Forall kth_skip (gt_lines text)).
+Print Assumptions C14_kth_rejects_with_value_error.
+Theorem C14_kthb_rejects_with_value_error : forall text e, gio_read_kthb text = GRaise e -> e = EValueError.
 Proof. exact kthb_exn. Qed.
-Print Assumptions C14_kthb_rejects_partial.
-(* D6 *)
-Theorem C14_kth_no_size_line_refuted :
-  gio_read_graph true TSimple FKthlist [] = GRaise EStopIteration /\
-  gio_read_graph true TBipartite FKthlist comment_only_text = GRaise EStopIteration.
-Proof. exact kth_empty_stopiteration. Qed.
-Print Assumptions C14_kth_no_size_line_refuted.
+Print Assumptions C14_kthb_rejects_with_value_error.
 
-(* dimacs: ValueError, except IndexError when some line is blank (partial) *)
-Theorem C14_dimacs_rejects_partial : forall k text e, gio_read_dimacs k text = GRaise e ->
-  e = EValueError \/ (e = EIndexError /\ exists l, In l (gt_lines text) /\ gt_strip l = []).
+(* dimacs: ValueError only, for every text *)
+Theorem C14_dimacs_rejects_with_value_error : forall k text e, gio_read_dimacs k text = GRaise e -> e = EValueError.
 Proof. exact dimacs_exn. Qed.
-Print Assumptions C14_dimacs_rejects_partial.
-(* D7 *)
-Theorem C14_dimacs_blank_line_refuted : gio_read_graph true TSimple FDimacs dimacs_blank_text = GRaise EIndexError.
+Print Assumptions C14_dimacs_rejects_with_value_error.
+
+(* through readGraph: every graph type, every in-house format, every text: a graph or ValueError *)
+Theorem C14_read_graph_rejects_with_value_error : forall hd t f text e, f <> FGml -> f <> FDot ->
+  gio_read_graph hd t f text = GRaise e -> e = EValueError.
+Proof. exact read_graph_exn. Qed.
+Print Assumptions C14_read_graph_rejects_with_value_error.
+
+(* the readers as found (before bb735e1, 11330db): StopIteration exactly when every line is a comment or blank (D6) *)
+Theorem C14_kth_rejects_as_found_partial : forall k text e, gio_read_kth_as_found k text = GRaise e ->
+  e = EValueError \/ (e = EStopIteration /\ Forall kth_skip (gt_lines text)).
+Proof. exact kth_exn_as_found. Qed.
+Print Assumptions C14_kth_rejects_as_found_partial.
+Theorem C14_kthb_rejects_as_found_partial : forall text e, gio_read_kthb_as_found text = GRaise e ->
+  e = EValueError \/ (e = EStopIteration /\ Forall kth_skip (gt_lines text)).
+Proof. exact kthb_exn_as_found. Qed.
+Print Assumptions C14_kthb_rejects_as_found_partial.
+Theorem C14_kth_no_size_line_as_found_refuted :
+  gio_read_graph_as_found true TSimple FKthlist [] = GRaise EStopIteration /\
+  gio_read_graph_as_found true TBipartite FKthlist comment_only_text = GRaise EStopIteration.
+Proof. exact kth_empty_stopiteration. Qed.
+Print Assumptions C14_kth_no_size_line_as_found_refuted.
+
+(* ... IndexError when some line is blank (D7) *)
+Theorem C14_dimacs_rejects_as_found_partial : forall k text e, gio_read_dimacs_as_found k text = GRaise e ->
+  e = EValueError \/ (e = EIndexError /\ exists l, In l (gt_lines text) /\ gt_strip l = []).
+Proof. exact dimacs_exn_as_found. Qed.
+Print Assumptions C14_dimacs_rejects_as_found_partial.
+Theorem C14_dimacs_blank_line_as_found_refuted :
+  gio_read_graph_as_found true TSimple FDimacs dimacs_blank_text = GRaise EIndexError.
 Proof. exact dimacs_blank_indexerror. Qed.
-Print Assumptions C14_dimacs_blank_line_refuted.
+Print Assumptions C14_dimacs_blank_line_as_found_refuted.
 
 (* a format that the graph type does not support is refused with ValueError whatever the text *)
 Theorem C14_format_table : forall hd t f text, existsb (gio_fmt_eqb f) (gio_supported hd t) = false ->
@@ -164,17 +206,29 @@ Theorem C14_gml_labels_identity : forall G, gio_wf G -> io_kind G <> GioBipartit
 Proof. exact gml_labels_identity. Qed.
 Print Assumptions C14_gml_labels_identity.
 
-(* dot labels are decimal strings, sorted lexicographically (D9): identity up to nine vertices only *)
-Theorem C14_dot_labels_partial : forall G, gio_wf G -> io_kind G <> GioBipartite -> io_n G <= 9 ->
-  gio_dot_roundtrip G = Some (GOk G).
+(* dot labels are decimal strings; the current code turns them into integers when they all are integers and
+   sorts them as numbers: identity for every size *)
+Theorem C14_dot_labels_identity : forall G, gio_wf G -> io_kind G <> GioBipartite -> gio_dot_roundtrip G = Some (GOk G).
+Proof. exact dot_labels_identity. Qed.
+Print Assumptions C14_dot_labels_identity.
+(* when some label is not an integer nothing is relabelled: the labels are sorted as strings, as before 733c3b6 *)
+Theorem C14_dot_non_numeric_labels : forall k name nodes edges, gt_ints nodes = None ->
+  gio_dot_normalize k name nodes edges = gio_dot_normalize_as_found k name nodes edges.
+Proof. exact dot_normalize_non_numeric. Qed.
+Print Assumptions C14_dot_non_numeric_labels.
+
+(* as found (D9): labels sorted lexicographically, identity up to nine vertices only *)
+Theorem C14_dot_labels_as_found_partial : forall G, gio_wf G -> io_kind G <> GioBipartite -> io_n G <= 9 ->
+  gio_dot_roundtrip_as_found G = Some (GOk G).
 Proof. exact dot_labels_partial. Qed.
-Print Assumptions C14_dot_labels_partial.
-Theorem C14_dot_labels_refuted : exists G, gio_wf G /\ io_kind G = GioSimple /\ gio_dot_roundtrip G <> Some (GOk G).
+Print Assumptions C14_dot_labels_as_found_partial.
+Theorem C14_dot_labels_as_found_refuted : exists G, gio_wf G /\ io_kind G = GioSimple /\ gio_dot_roundtrip_as_found G <> Some (GOk G).
 Proof. exact dot_labels_refuted. Qed.
-Print Assumptions C14_dot_labels_refuted.
-Theorem C14_dot_12_vertices : gio_dot_roundtrip (mkIOG GioSimple [] 12 0 [(2, 10)]) = Some (GOk (mkIOG GioSimple [] 12 0 [(2, 5)])).
+Print Assumptions C14_dot_labels_as_found_refuted.
+Theorem C14_dot_12_vertices_as_found :
+  gio_dot_roundtrip_as_found (mkIOG GioSimple [] 12 0 [(2, 10)]) = Some (GOk (mkIOG GioSimple [] 12 0 [(2, 5)])).
 Proof. exact dot_g12. Qed.
-Print Assumptions C14_dot_12_vertices.
+Print Assumptions C14_dot_12_vertices_as_found.
 
 (* bipartite graphs: from_networkx uses the 'bipartite' attribute and the node order, nothing is sorted:
    what to_networkx + a faithful gml/dot writer and reader deliver (nodes "1".."L" with colour 0, then
@@ -183,6 +237,12 @@ Theorem C14_bipartite_from_networkx : forall G, gio_wf G -> io_kind G = GioBipar
   gio_bip_from_nx gt_str_eqb (io_name G) (nx_bip_nodes (io_n G) (io_r G)) (nx_bip_edges (io_n G) (io_edges G)) = GOk G.
 Proof. exact bip_nx_roundtrip. Qed.
 Print Assumptions C14_bipartite_from_networkx.
+
+(* the same through the relabelling of the dot branch (labels become the integers 1..L+R) *)
+Theorem C14_bipartite_dot_labels : forall G, gio_wf G -> io_kind G = GioBipartite ->
+  gio_dot_bip_normalize (io_name G) (nx_bip_nodes (io_n G) (io_r G)) (nx_bip_edges (io_n G) (io_edges G)) = Some (GOk G).
+Proof. exact bip_dot_roundtrip. Qed.
+Print Assumptions C14_bipartite_dot_labels.
 
 (* ---------- non-vacuity ---------- *)
 (* a 12-vertex dag with isolated vertices and an edge 2 -> 10 meets the hypotheses of C14_roundtrip;
@@ -194,7 +254,10 @@ Example C14_nonvacuous :
                 gio_read_graph true TDag FDimacs text = GOk (same_but_name g12d (io_name g12d))).
 Proof. exact g12d_example. Qed.
 
-(* the blank-line-free twin of the D7 witness is accepted: the partial theorem is not vacuous *)
-Example C14_dimacs_nonvacuous :
-  gio_read_graph true TSimple FDimacs dimacs_noblank_text = GOk (mkIOG GioSimple [] 2 0 [(1, 2)]).
-Proof. exact dimacs_noblank_ok. Qed.
+(* the witnesses of D6, D7 under the current code: a parse error, and the blank line is skipped *)
+Example C14_repaired_nonvacuous :
+  gio_read_graph true TSimple FKthlist [] = GRaise EValueError /\
+  gio_read_graph true TSimple FDimacs dimacs_blank_text = GOk (mkIOG GioSimple [] 2 0 [(1, 2)]) /\
+  gio_read_graph true TSimple FDimacs dimacs_noblank_text = GOk (mkIOG GioSimple [] 2 0 [(1, 2)]) /\
+  gio_dot_roundtrip g12 = Some (GOk g12).
+Proof. exact (conj (proj1 kth_empty_valueerror) (conj dimacs_blank_ok (conj dimacs_noblank_ok dot_g12_now))). Qed.
